@@ -34,11 +34,19 @@ class Obligation:
         self.status, self.backend, self.time_s, self.model = None, None, 0.0, None
 
 
+class Heap(dict):
+    """Path-local heap; immutable row objects of nested fresh sequences live in a shared side table."""
+    shared = {}
+
+    def __missing__(self, k):
+        return Heap.shared[k]
+
+
 class State:
     def __init__(self, eng):
         self.eng = eng
         self.env = {}
-        self.heap = {}
+        self.heap = Heap()
         self.pc = []
         self.guards = []
         self.silent = 0
@@ -48,7 +56,7 @@ class State:
     def fork(self):
         s = State(self.eng)
         s.env = dict(self.env)
-        s.heap = dict(self.heap)
+        s.heap = Heap(self.heap)
         s.pc = list(self.pc)
         s.guards = list(self.guards)
         s.silent = self.silent
@@ -311,6 +319,9 @@ class Engine:
             elif iet.kind == "label":
                 f2 = z3.Function(nm + ".e", z3.IntSort(), z3.IntSort(), Label)
                 mk = lambda i: (lambda j: VLabel(f2(i, j)))
+            elif iet.kind == "fn":
+                f2 = z3.Function(nm + ".e", z3.IntSort(), z3.IntSort(), Fn)
+                mk = lambda i: (lambda j: VFn(f2(i, j)))
             elif iet.kind in ("real", "float"):
                 f2 = z3.Function(nm + ".e", z3.IntSort(), z3.IntSort(), z3.RealSort())
                 if iet.kind == "real":
@@ -324,8 +335,12 @@ class Engine:
                 raise Unsupported("nested sequence of %r" % (iet,))
             isarr = (et.kind == "arr")
 
-            def row(i, st=st):
-                return st.alloc(HSeq(ln(i), mk(i), numpy=isarr, etype=iet))
+            eng_ = self
+
+            def row(i):
+                eng_._addr += 1
+                Heap.shared[eng_._addr] = HSeq(ln(i), mk(i), numpy=isarr, etype=iet)
+                return VRef(eng_._addr)
             return row
         raise Unsupported("fresh_elemfn(%r)" % (et,))
 
@@ -723,6 +738,9 @@ class Engine:
     opaque_call = None
 
     def fpow(self, x, y, st, node):
+        # 10 ** y  (the only float power the verified functions use): POW10 uninterpreted, positive
+        if z3.is_true(z3.simplify(z3.And(x.is_fin(), x.val == 10))):
+            return VFloat(VV.POW10(y.val), y.nan, z3.And(y.inf, y.pos), z3.BoolVal(True))
         raise Unsupported("float power (line %s)" % getattr(node, "lineno", "?"))
 
     @staticmethod
@@ -875,6 +893,9 @@ class Engine:
         raise Unsupported("slice of %r (line %d)" % (base, node.lineno))
 
     def ev_ListComp(self, node, st):
+        return self.models["listcomp"](self, st, node)
+
+    def ev_GeneratorExp(self, node, st):
         return self.models["listcomp"](self, st, node)
 
     def ev_JoinedStr(self, node, st):
